@@ -1,15 +1,15 @@
 SPECIFICATION Spec
 CONSTANTS
   OrphanNested = FALSE
-  MaxProc = 2
+  MaxProc = 1
   MaxEv = 8
   MaxOps = 2
   MaxPlan = 4
   Delays = {0, 1}
-  Kinds = {"sleep", "event", "succeed", "spawn", "yield"}
-  PlanKinds = {"run", "step", "rununtil", "runev"}
-  UntilTimes = {1, 2}
-  Catches = {1}
+  Kinds = {"sleep", "event", "succeed", "fail", "yield", "raise"}
+  PlanKinds = {"run", "rununtil", "runev", "topop"}
+  UntilTimes = {2, 3}
+  Catches = {0, 1}
   MaxKids = 0
 CONSTRAINT Emit
 INVARIANT SingleWait
